@@ -200,3 +200,44 @@ func VerifH_C20_antispamFirstRuleWins() {
 
 // for the pipeline-level harness (the struct's fields are unexported)
 func VerifNewAntispammer(o *Options) *Antispammer { return verifNew(o) }
+
+// C20.H3e: rules on metadata: a record WITHOUT the metadata key is "null" for the rule (matches a rule
+// on null, does not match a rule on the empty string), a record with the key matches by its value.
+func VerifH_C20_antispamMetaRule() {
+	mk := func(values ...any) *doif.Checker {
+		chk, err := doif.NewFromMap(map[string]any{"op": "equal", "field": "meta.pod", "values": values})
+		if err != nil {
+			vf.Fail("rule-construction")
+		}
+		return chk
+	}
+	ruleOnNull := vf.Choose("rule-on", 2) == 0
+	var meta map[string]string
+	metaKind := vf.Choose("meta", 3)
+	switch metaKind {
+	case 1:
+		meta = map[string]string{"pod": ""}
+	case 2:
+		meta = map[string]string{"pod": "p1", "ns": "x"}
+	}
+	// the rule lets its records through without limit; everything else falls under the global threshold 2
+	var o *Options
+	if ruleOnNull {
+		o = &Options{MaintenanceInterval: verifInterval, Threshold: 2, UnbanIterations: 1, Rules: Rules{{Name: "no-pod", Threshold: thresholdUnlimited, DoIfChecker: mk(nil)}}}
+	} else {
+		o = &Options{MaintenanceInterval: verifInterval, Threshold: 2, UnbanIterations: 1, Rules: Rules{{Name: "empty-pod", Threshold: thresholdUnlimited, DoIfChecker: mk("")}}}
+	}
+	a := verifNew(o)
+	now := time.Unix(1700000000, 0)
+	matches := (ruleOnNull && metaKind == 0) || (!ruleOnNull && metaKind == 1)
+	for i := 1; i <= 4; i++ {
+		spam := a.IsSpam("s", "s", false, []byte("e"), now, meta)
+		want := !matches && i >= 2
+		if vf.Param("twin", 0) == 1 {
+			vf.Assert(spam != want, "meta-rule-decides-by-presence-and-value")
+			continue
+		}
+		vf.Assert(spam == want, "meta-rule-decides-by-presence-and-value")
+	}
+	vf.Reach("meta-rule-checked")
+}
